@@ -370,6 +370,9 @@ impl Drop for StreamHalf {
 // wire logging stay the same: the write half parses the prefix and hands complete frames to the link, the read half
 // takes frames from the link, prefixes them and hands the bytes out in seeded pieces.
 
+/// Frames at least this long are announced in full but only their first three bytes are delivered (0 = off).
+pub static STREAM_WITHHOLD: std::sync::atomic::AtomicUsize = std::sync::atomic::AtomicUsize::new(0);
+
 /// Write half: bytes in, frames out (to the link's sink).
 pub struct ByteSink {
     sink: SinkHalf,
@@ -441,7 +444,13 @@ impl tokio::io::AsyncRead for ByteStream {
                 Poll::Ready(Some(Ok(frame))) => {
                     let len = frame.len() as u32;
                     self.pending.extend(len.to_le_bytes());
-                    self.pending.extend(frame.iter());
+                    let withhold = STREAM_WITHHOLD.load(Ordering::SeqCst);
+                    if withhold > 0 && frame.len() >= withhold {
+                        // hostile peer: announces a long frame and sends only its first bytes
+                        self.pending.extend(frame.iter().take(3));
+                    } else {
+                        self.pending.extend(frame.iter());
+                    }
                 }
                 Poll::Ready(Some(Err(e))) => return Poll::Ready(Err(e)),
                 Poll::Ready(None) => self.ended = true,
